@@ -151,16 +151,16 @@ func vbCheckWorldCIDs(w *vbWorld, st *vbStats, sink vbSink) {
 		c := vbCIDCase{ID: id, Height: w.Height, EdsSize: w.S.N}
 		st.cidChecked++
 		for _, v := range vbCheckCID(c) {
-			sink(v, vbReplay{Mode: "cid", CID: &c})
+			sink(v, func() vbReplay { return vbReplay{Mode: "cid", CID: &c} })
 		}
 		if _, err := w.newBlock(id); err != nil {
-			sink(vbViol{"C10/cid/constructor-refuses/" + id.Kind, fmt.Sprintf("constructor refuses identifier %s of a width-%d square: %v", id, w.S.N, err), -1}, vbReplay{Mode: "cid", CID: &c})
+			sink(vbViol{"C10/cid/constructor-refuses/" + id.Kind, fmt.Sprintf("constructor refuses identifier %s of a width-%d square: %v", id, w.S.N, err), -1}, func() vbReplay { return vbReplay{Mode: "cid", CID: &c} })
 		}
 		// the serving side answers under the CID it was asked for and wraps the same CID
 		if w.Honest[i] != nil {
 			inner, _, ok := vbSplit(w.Honest[i])
 			if !ok || !inner.Equals(vbRefCID(w.Height, id)) || !w.ServedCID[i].Equals(vbRefCID(w.Height, id)) {
-				sink(vbViol{"C10/serve/wrong-cid/" + id.Kind, fmt.Sprintf("Blockstore.Get(%s) returned a block with CID %s wrapping inner CID %v", vbRefCID(w.Height, id), w.ServedCID[i], inner), -1}, vbReplay{Mode: "cid", CID: &c})
+				sink(vbViol{"C10/serve/wrong-cid/" + id.Kind, fmt.Sprintf("Blockstore.Get(%s) returned a block with CID %s wrapping inner CID %v", vbRefCID(w.Height, id), w.ServedCID[i], inner), -1}, func() vbReplay { return vbReplay{Mode: "cid", CID: &c} })
 			}
 		}
 	}
